@@ -567,14 +567,14 @@ type v38Step struct {
 	Cache   string `json:"cache"`
 	Applied bool   `json:"applied"`
 	BFault  bool   `json:"bfault"`
-	Detail  string `json:"detail"`
+	Detail  string `json:"detail,omitempty"`
 }
 
 type v38Loader struct {
 	Actor  string `json:"actor"`
 	Level  string `json:"level"`
 	Out    string `json:"out"`
-	Detail string `json:"detail"`
+	Detail string `json:"detail,omitempty"`
 }
 
 type v38Rec struct {
@@ -582,14 +582,15 @@ type v38Rec struct {
 	Kind     string      `json:"kind"`
 	FType    string      `json:"ftype"`
 	Op       string      `json:"op"`
-	Script   []string    `json:"script"`
-	Res      []v38Step   `json:"res"`
-	Init     string      `json:"init"`
-	Schedule []string    `json:"schedule"`
-	Loaders  []v38Loader `json:"loaders"`
-	Final    string      `json:"final"`
-	Skipped  int         `json:"skipped"`
-	Inner    int         `json:"inner_loads"`
+	// fields of the other kind of record are left out (TLC reads every byte; RecOK only looks at those of its kind)
+	Script   []string    `json:"script,omitempty"`
+	Res      []v38Step   `json:"res,omitempty"`
+	Init     string      `json:"init,omitempty"`
+	Schedule []string    `json:"schedule,omitempty"`
+	Loaders  []v38Loader `json:"loaders,omitempty"`
+	Final    string      `json:"final,omitempty"`
+	Skipped  int         `json:"skipped,omitempty"`
+	Inner    int         `json:"inner_loads,omitempty"`
 }
 
 func (f *v38Fix) restore(tg *v38Target) {
@@ -610,8 +611,7 @@ func (f *v38Fix) runScript(sc v38Scen) v38Rec {
 	defer os.RemoveAll(base)
 	defer f.restore(tg)
 	f.attach(f.rA, base)
-	rec := v38Rec{Idx: sc.Idx, Kind: "script", FType: sc.FType, Op: sc.Op, Script: sc.Script, Res: []v38Step{},
-		Schedule: []string{}, Loaders: []v38Loader{}, Init: "absent", Final: "na"}
+	rec := v38Rec{Idx: sc.Idx, Kind: "script", FType: sc.FType, Op: sc.Op, Script: sc.Script, Res: []v38Step{}}
 	f.gate.mu.Lock()
 	f.gate.loads = 0
 	delete(f.gate.failNext, tg.id.String())
@@ -687,7 +687,7 @@ func (f *v38Fix) runConc(sc v38Scen, res *kit.Result) v38Rec {
 	base := f.newBase()
 	defer os.RemoveAll(base)
 	op := f.concOp(sc.FType)
-	rec := v38Rec{Idx: sc.Idx, Kind: "conc", FType: sc.FType, Op: op, Script: []string{}, Res: []v38Step{},
+	rec := v38Rec{Idx: sc.Idx, Kind: "conc", FType: sc.FType, Op: op,
 		Init: sc.Init, Schedule: sc.Schedule, Loaders: []v38Loader{}}
 	// the raw reader asks for the whole file or for one of several byte ranges
 	rsalt := v38Hash(kit.Seed(), sc.Idx, "raw")
